@@ -65,6 +65,8 @@ def gen_task(task):
     """worker: symbolically execute one lemma under one configuration -> serialisable obligations"""
     path, lemma_name, cfg_index = task[:3]
     limit = task[3] if len(task) > 3 else 300
+    if os.environ.get("VERIF_GEN_LIMIT"):
+        limit = int(os.environ["VERIF_GEN_LIMIT"])
     task = tuple(task[:3])
     t0 = time.time()
     eng = None
@@ -237,8 +239,10 @@ def main(argv=None):
                 idxs = list(fixtures.QUICK_PROVIDER_CONFIGS)
             if args.configs:
                 idxs = idxs[:int(args.configs)]
+            if os.environ.get("VERIF_CFG"):
+                idxs = [int(x) for x in os.environ["VERIF_CFG"].split(",") if int(x) < len(cfgs)]
             for ci in idxs:
-                tasks.append((path, spec.name, ci, 300 if tier == "quick" else 1200))
+                tasks.append((path, spec.name, ci, 900 if tier == "quick" else 2400))
     gens = []
     if tasks:
         ctx = mp.get_context("fork")
@@ -255,7 +259,7 @@ def main(argv=None):
         obs.extend(g["obligations"])
         for n, lst in g["covers"].items():
             covers.setdefault(n, []).extend(lst)
-    timeout_s = entry.get("timeout_s", {}).get(tier, 20 if tier == "quick" else 120)
+    timeout_s = entry.get("timeout_s", {}).get(tier, 60 if tier == "quick" else 240)
     results = solve_all(obs, timeout_s, tier == "thorough" and entry.get("both_solvers", True), args.jobs, seed) if obs else []
     lap("solving (%d obligations)" % len(obs))
     cov = check_covers(covers, args.jobs, seed) if covers else {}
